@@ -971,3 +971,60 @@ pub proof fn lemma_pending_tail_sub(rs: Seq<RemoveMarker>, p: Seq<RemoveMarker>,
         }
     }
 }
+
+// ---- every merged marker ends at a positive offset (get_line_range computes `range.end - 1`) ----
+pub proof fn lemma_mcm_grows(s: Seq<Range<usize>>, m: Range<usize>)
+    ensures mcm(s, m).1.end >= m.end, mcm(s, m).1.start <= m.start,
+    decreases s.len(),
+{
+    if s.len() > 0 && touches(m, s[0]) { lemma_mcm_grows(s.drop_first(), hull(m, s[0])); }
+}
+pub proof fn lemma_mm_end_pos(f: Seq<GTree>, lo: int, hi: int)
+    requires wf_forest(f, lo, hi),
+    ensures forall|i: int| 0 <= i < mm_spec(f).len() ==> (#[trigger] mm_spec(f)[i]).0.end >= 1,
+    decreases f,
+{
+    if f.len() > 0 {
+        let g = f.drop_last();
+        let t = f.last();
+        assert(t == f[f.len() - 1]);
+        assert(wf_forest(g, lo, hi)) by {
+            assert forall|i: int| 0 <= i < g.len() implies lo < node_lo(#[trigger] g[i]) && node_hi(g[i]) < hi && node_ranges_ok(g[i]) by { assert(g[i] == f[i]); }
+            assert forall|i: int| 0 <= i < g.len() implies wf_forest((#[trigger] g[i]).children, node_lo(g[i]), node_hi(g[i])) by { assert(g[i] == f[i]); }
+            assert forall|i: int, j: int| 0 <= i < j < g.len() implies node_hi(#[trigger] g[i]) <= node_lo(#[trigger] g[j]) by { assert(g[i] == f[i] && g[j] == f[j]); }
+        }
+        lemma_mm_end_pos(g, lo, hi);
+        lemma_mm_end_pos(t.children, node_lo(t), node_hi(t));
+        let prev = mm_spec(g);
+        let cm = mm_spec(t.children);
+        let cr = marker_ranges(cm);
+        let tm = tree_markers(t, cm, prev.len() as int);
+        assert(node_ranges_ok(t));
+        lemma_mcm_grows(cr, t.range.0);
+        lemma_mcm_bounds(cr, t.range.0);
+        if t.range.1 is Some {
+            lemma_mcm_grows(cr.reverse(), t.range.1->0);
+            lemma_mcm_bounds(cr.reverse(), t.range.1->0);
+        }
+        assert forall|i: int| 0 <= i < tm.len() implies (#[trigger] tm[i]).0.end >= 1 by {
+            let a = mcm(cr, t.range.0);
+            match t.range.1 {
+                Some(tail) => {
+                    let b = mcm(cr.reverse(), tail);
+                    let ec = cm.len() - b.0;
+                    if a.0 > ec { } else {
+                        if 0 < i < tm.len() - 1 {
+                            let rb = rebased(cm, a.0, ec, prev.len() as int);
+                            assert(tm[i] == rb[i - 1]);
+                            assert(rb[i - 1].0 == cm[a.0 + i - 1].0);
+                        }
+                    }
+                },
+                None => {},
+            }
+        }
+        assert forall|i: int| 0 <= i < mm_spec(f).len() implies (#[trigger] mm_spec(f)[i]).0.end >= 1 by {
+            if i < prev.len() { assert(mm_spec(f)[i] == prev[i]); } else { assert(mm_spec(f)[i] == tm[i - prev.len()]); }
+        }
+    }
+}
